@@ -5,6 +5,8 @@ package main
 // KNOWN-FINDING / VIOLATION lines; `vmon replay <file>` re-executes an explicit history.
 
 import (
+	"encoding/hex"
+	"crypto/sha256"
 	"runtime/debug"
 	sdk "github.com/cosmos/cosmos-sdk/types"
 	"bufio"
@@ -248,7 +250,14 @@ func RunHistory(w *World, def *CheckDef, profName string, seed uint64, idx int, 
 		}
 	}()
 	rep.Steps = r.Idx
-	if def.Replays > 0 && len(rep.Viol) == 0 && len(rep.Inconcl) == 0 {
+	for _, m := range r.Mons {
+		if c, ok := m.(*MonC19); ok {
+			hb, _ := json.Marshal(r.Hist.Steps)
+			sum := sha256.Sum256([]byte(strings.Join(c.Digests, "\n") + string(hb)))
+			rep.Digest = hex.EncodeToString(sum[:])
+		}
+	}
+	if def.Replays > 0 && len(rep.Viol) == 0 && len(rep.Inconcl) == 0 && os.Getenv("VMON_FIRST_RUN_ONLY") == "" {
 		compareReplays(w, def, r, rep)
 	}
 	rep.WallMs = time.Since(start).Milliseconds()
@@ -455,6 +464,54 @@ func cmdCheck(id, tier string) int {
 			}
 		}
 	}
+	// C19: a sample of the histories is executed once more, each in a process of its own, and must produce the
+	// same digest as in the process that had executed other histories before it: state that outlives a history
+	// outside the store (package variables, caches keyed by height, ...) makes the two differ
+	freshDigest := map[string]string{}
+	if id == "C19" && len(crashJobs) == 0 {
+		freshDir := filepath.Join(outDir, "fresh")
+		_ = os.MkdirAll(freshDir, 0o755)
+		var fw sync.WaitGroup
+		sem := make(chan struct{}, nc)
+		for j := range jobs {
+			if j < nc || (j/nc)%3 != 1 {
+				continue // only histories that were not the first one of their process; about a third of them
+			}
+			fw.Add(1)
+			sem <- struct{}{}
+			go func(j int) {
+				defer fw.Done()
+				defer func() { <-sem }()
+				cmd := exec.Command(self, "child", id, tier, strconv.FormatUint(seed, 10), strconv.Itoa(j), strconv.Itoa(nc), freshDir, strconv.Itoa(j))
+				cmd.Env = append(os.Environ(), "VMON_FIRST_RUN_ONLY=1")
+				done := make(chan error, 1)
+				_ = cmd.Start()
+				go func() { done <- cmd.Wait() }()
+				select {
+				case <-done:
+				case <-time.After(watchdog):
+					_ = cmd.Process.Kill()
+				}
+			}(j)
+		}
+		fw.Wait()
+		ff, _ := filepath.Glob(filepath.Join(freshDir, "reports-*.jsonl"))
+		for _, f := range ff {
+			fh, err := os.Open(f)
+			if err != nil {
+				continue
+			}
+			sc := bufio.NewScanner(fh)
+			sc.Buffer(make([]byte, 1<<20), 1<<28)
+			for sc.Scan() {
+				var rep Report
+				if json.Unmarshal(sc.Bytes(), &rep) == nil && rep.Digest != "" {
+					freshDigest[fmt.Sprintf("%s/%d", rep.Profile, rep.Index)] = rep.Digest
+				}
+			}
+			fh.Close()
+		}
+	}
 	sum := NewSummary()
 	seen := map[string]bool{}
 	files, _ := filepath.Glob(filepath.Join(outDir, "reports-*.jsonl"))
@@ -476,6 +533,17 @@ func cmdCheck(id, tier string) int {
 				continue
 			}
 			seen[k] = true
+			if fd, ok := freshDigest[k]; ok && rep.Digest != "" && len(rep.Viol) == 0 {
+				rep.Evals["C19.cross-process"]++
+				rep.Classes["C19.rerun-in-fresh-process"]++
+				if fd != rep.Digest {
+					p := filepath.Join(verifDir, "replays", id, fmt.Sprintf("crossproc-%s-s%d-i%d.txt", rep.Profile, seed, rep.Index))
+					_ = os.MkdirAll(filepath.Dir(p), 0o755)
+					_ = os.WriteFile(p, []byte(fmt.Sprintf("history %s (seed %d) produced digest %s in a process that had executed other histories before it and %s in a process of its own; reproduce: vmon check C19 %s with VERIF_SEED=%d\n", k, seed, rep.Digest, fd, tier, seed)), 0o644)
+					rep.Viol = append(rep.Viol, Violation{Prop: "C19", Assert: "C19.cross-process", Step: 0, Msg: fmt.Sprintf("history %s gives different results, events or state in a process of its own (%s) than after other histories in the same process (%s): something outside the store survives from one execution to the next", k, fd[:16], rep.Digest[:16])})
+					rep.Replay = p
+				}
+			}
 			sum.Add(&rep)
 		}
 		fh.Close()
@@ -755,9 +823,12 @@ func compareReplays(w *World, def *CheckDef, r *Runner, rep *Report) {
 					rep.Inconclusive(fmt.Sprintf("replay panicked: %v", p))
 				}
 			}()
-			for _, s := range hist.Steps {
+			for i, s := range hist.Steps {
 				if r2.Halt {
 					break
+				}
+				if r2.Ghost {
+					r2.GhostNext = hist.Steps[i+1:]
 				}
 				r2.Step(s)
 			}
